@@ -88,8 +88,8 @@ def run_in_opt_child(mod, plan: dict, sim: Sim) -> dict:
     sim.seq += resp["seq"]
     sim._h.update(resp["digest"].encode())
     for v in resp["violations"]:
-        v.setdefault("sig", {})
-        v["sig"] = dict(v["sig"] or {}, interpreter="python -O")
+        # same signature as in the ordinary interpreter (one defect, one replay); the plan says where it ran
+        v["msg"] = "[python -O] " + str(v.get("msg", ""))
     key = frozenset(("-O", k) for k in resp["keys"]) if resp["keys"] else None
     return {"violations": resp["violations"], "key": key, "harness": resp["harness"]}
 
